@@ -132,6 +132,10 @@ def outcome(fn):
 def concurrent_vs_sequential(tasks, state: ModuleState, seed: int, p_switch=0.1, max_switches=6):
     """tasks: zero-argument callables.  Returns (concurrent outcomes, sequential outcomes, schedule taken,
     kernel errors).  The schedule is a function of `seed` alone."""
+    make = tasks if callable(tasks) else None        # a factory: fresh (shared) objects for each of the two runs
+    if make is not None:
+        state.restore()
+        tasks = make()
     state.restore()
     k = sk.Kernel(seed=1).install()
     ex = sched.Explorer(None, rng=_random.Random(seed), p_switch=p_switch, max_random_switches=max_switches)
@@ -153,6 +157,9 @@ def concurrent_vs_sequential(tasks, state: ModuleState, seed: int, p_switch=0.1,
     finally:
         k.shutdown()
     state.restore()
+    if make is not None:
+        tasks = make()
+        state.restore()
     seq = [outcome(t) for t in tasks]
     state.restore()
     return conc, seq, dict(ex.taken), errs
